@@ -475,8 +475,13 @@ PROPERTIES = {
         'explanation':
             "Necessary conditions only. TAB2: all four entry points run the same parser on the same bytes (the string variants "
             "add strlen+1), so 'all entry points produce equal trees' reduces to the length argument. TAB4: each literal is "
-            "compared at exactly its length, advanced by exactly its length and stored as its own type; the BOM likewise. "
-            "TAB5a: the escape switch maps b f n r t \" \\ / to the RFC 8259 bytes, u to the UTF-16 routine, nothing else. "
+            "compared at exactly its length, advanced by exactly its length and stored as its own type, also through a helper whose "
+            "lengths are linear in its parameters; the readable bytes demanded first are no more than the literal has (or it would be "
+            "refused as the last token of an exact-length buffer); the BOM likewise. "
+            "TAB5a: the decoding loop of parse_string followed path by path with the set of values the byte after a backslash can "
+            "have (switch, if-chain or a strchr/memchr search of a constant table, which finds the terminator as C does): for all "
+            "256 values, exactly b f n r t \" \\ / continue with the RFC 8259 byte written once and two bytes consumed, u goes to "
+            "the UTF-16 routine, every other value fails. "
             "TAB6: the surrogate ranges, 0x10000 offset, 0x3FF/10-bit combination, UTF-8 thresholds and lead-byte marks "
             "extracted from utf16_literal_to_utf8 equal RFC 2781/3629 (comparisons normalised to boundaries so <= 0x7F and "
             "< 0x80 are the same). TAB7: the int view is the saturating conversion. C02S: the dispatch enters the string, "
